@@ -40,6 +40,13 @@ type pathState struct {
 	FCells map[string]ssa.Value
 	Defers []deferRec
 	InstN  int
+	// Field stores along the path (always tracked): FVer counts the stores into each field access path so far, LoadVer
+	// remembers for each load executed after such a store which version it saw (its term carries the version, so a
+	// fact about `len(l.tokens)` from before `l.tokens = l.tokens[1:]` does not speak about the load after it), and
+	// FLast holds the value last stored while no call has intervened (the load then is that value).
+	FVer    map[string]int
+	LoadVer map[*ssa.UnOp]int
+	FLast   map[string]ssa.Value
 }
 
 type deferRec struct {
@@ -107,6 +114,24 @@ func (ps *pathState) clone() *pathState {
 		n.Defers = append([]deferRec(nil), ps.Defers...)
 	}
 	n.InstN = ps.InstN
+	if len(ps.FVer) > 0 {
+		n.FVer = make(map[string]int, len(ps.FVer))
+		for k, v := range ps.FVer {
+			n.FVer[k] = v
+		}
+	}
+	if len(ps.LoadVer) > 0 {
+		n.LoadVer = make(map[*ssa.UnOp]int, len(ps.LoadVer))
+		for k, v := range ps.LoadVer {
+			n.LoadVer[k] = v
+		}
+	}
+	if len(ps.FLast) > 0 {
+		n.FLast = make(map[string]ssa.Value, len(ps.FLast))
+		for k, v := range ps.FLast {
+			n.FLast[k] = v
+		}
+	}
 	if len(ps.Loaded) > 0 {
 		n.Loaded = make(map[*ssa.UnOp]ssa.Value, len(ps.Loaded))
 		for k, v := range ps.Loaded {
